@@ -219,11 +219,18 @@ impl DocumentBuilder {
         Ok(self.add(Value::Text(Text::new(content.to_string())), xot))
     }
 
-    fn cdata_text(&mut self, content: &str, xot: &mut Xot) -> Result<NodeId, ParseError> {
+    fn cdata_text(&mut self, content: &str, xot: &mut Xot) -> Result<Option<NodeId>, ParseError> {
         if let Some(last) = self.consolidate_text(content, xot) {
-            return Ok(last);
+            return Ok(Some(last));
         }
-        Ok(self.add(Value::Text(Text::new(content.to_string())), xot))
+        // an empty CDATA section does not denote any character data, so it
+        // should not result in an (empty) text node
+        if content.is_empty() {
+            return Ok(None);
+        }
+        Ok(Some(
+            self.add(Value::Text(Text::new(content.to_string())), xot),
+        ))
     }
 
     fn close_element_immediate(&mut self, xot: &mut Xot) -> NodeId {
@@ -693,8 +700,9 @@ impl Xot {
                         span_info.extend_text_span(node_id.into(), text.into());
                     }
                     Cdata { text, span: _ } => {
-                        let node_id = builder.cdata_text(text.as_str(), self)?;
-                        span_info.extend_text_span(node_id.into(), text.into());
+                        if let Some(node_id) = builder.cdata_text(text.as_str(), self)? {
+                            span_info.extend_text_span(node_id.into(), text.into());
+                        }
                     }
                     ElementStart {
                         prefix,
